@@ -258,6 +258,13 @@ class Grower:
             ('executed', 8 * self.risk if self.executed else 0), ('input-word', 3 * self.risk),
         ]
         kind = rng.choices([k for k, _ in menu], [wt for _, wt in menu])[0]
+        if self.geom_name == 'cache-alias' and rng.random() < 0.45:
+            # a flip into a DIFFERENT page that maps to the same direct-mapped page-cache slot as the op's page
+            own_page = (ip // w) // PAGE
+            aliases = [(s, n) for s, n in self.seg.list if s // PAGE != own_page and (s // PAGE - own_page) % 16 == 0]
+            if aliases:
+                s, n = rng.choice(aliases)
+                return (s + rng.randrange(n)) * w + rng.randrange(w)
         if kind == 'scratch':
             return self._in_seg_word() * w + rng.randrange(w)
         if kind == 'out':
@@ -291,7 +298,8 @@ class Grower:
         m = self.machine
         pressure = m.ops >= self.target_ops
         menu = [
-            ('next', 40), ('unaligned', 9), ('odd-word', 6), ('straddle', 2.5 * self.risk),
+            ('next', 40), ('unaligned', 9), ('odd-word', 6),
+            ('straddle', 2.5 * self.risk if self.geom_name not in ('cache-alias', 'page-edge') else 7),
             ('revisit', 8 * self.risk if self.executed else 0),
             ('input', 9 * max(self.risk, 0.3) if self.seg.contains(3) else 0), ('far', 10),
             ('edge', 8), ('halt', 60 if pressure else 1 * self.risk), ('null', 12 if pressure else 0.5 * self.risk),
